@@ -97,9 +97,12 @@ package controllers
 //@   ensures [C05] W() <= old(W()) + 1
 //@   ensures [C05] pfViolations() > 0 ==> W() == old(W())
 //@   ensures tdPending() == old(tdPending())
+//@   ensures gomem_unchanged()
 
 //@ func package-operator.run/internal/controllers.(*PhaseReconciler).TeardownPhase
 //@   requires [C04] !tdPending()
 //@   ghost tdPending() := old(tdPending()) || err != nil || !cleanupDone
 //@   ensures [C04] tdPending() == (old(tdPending()) || err != nil || !cleanupDone)
 //@   loop 1 invariant !tdPending()
+//@   loop 1 invariant gomem_unchanged()
+//@   ensures gomem_unchanged()
